@@ -193,6 +193,15 @@ func (ex *Exec) instr(fr *Frame, in ssa.Instruction, st *State, pc *Term) *Term 
 		n, srt := "ghost:sends", ArrSort(SRef, BV(64))
 		c := ex.get(st, n, srt)
 		ex.setAt(st, n, Store(c, ch, BVOp("bvadd", Select(c, ch), BVu(1, 64))), ch)
+		// for channels of interface values the value sent last is kept as well (ghost lastsent)
+		if ct, ok := under(x.Chan.Type()).(*types.Chan); ok && types.IsInterface(ct.Elem()) {
+			if iv, ok := ex.val(fr, x.X).(*IfaceV); ok {
+				for k, l := range leaves(ct.Elem()) {
+					cn, cs := "ghost:lastsent"+l.path, ArrSort(SRef, l.sort)
+					ex.setAt(st, cn, Store(ex.get(st, cn, cs), ch, flat(iv)[k]), ch)
+				}
+			}
+		}
 		ex.unsupported("channel send modelled as a ghost counter (no blocking, no ordering)")
 	case *ssa.Select:
 		ex.unsupported("select statement abstracted (nondeterministic choice)")
